@@ -380,7 +380,7 @@ Qed.
 Lemma set_add_NoDup x s : NoDup s -> NoDup (set_add x s).
 Proof.
   induction s as [|z t IH]; intros H; simpl.
-  - constructor; auto. constructor.
+  - constructor; auto; constructor.
   - destruct (x =? z) eqn:E; auto. inversion H; subst. constructor; [|apply IH; auto].
     rewrite set_add_In. apply Nat.eqb_neq in E. intuition.
 Qed.
@@ -422,26 +422,37 @@ Proof.
 Qed.
 
 (* ---------- constructors keep the order of the labels ---------- *)
+Lemma right_linear_eq x y rest : right_linear (x :: y :: rest) =
+  match right_linear (y :: rest) with Some r => Some (VNode (VLeaf x) r) | None => None end.
+Proof. reflexivity. Qed.
+
 Lemma right_linear_flatten o : forall t, right_linear o = Some t -> flatten t = o.
 Proof.
-  induction o as [|x [|y rest] IH]; intros t H; simpl in H; try discriminate.
+  induction o as [|x o IH]; intros t H; [discriminate|].
+  destruct o as [|y rest].
   - inversion H; reflexivity.
-  - destruct (right_linear (y :: rest)) as [r|] eqn:E; [|discriminate].
+  - rewrite right_linear_eq in H. destruct (right_linear (y :: rest)) as [r|] eqn:E; [|discriminate].
     inversion H; subst. simpl. rewrite (IH r eq_refl). reflexivity.
 Qed.
 
 Lemma right_linear_total o : o <> [] -> exists t, right_linear o = Some t.
 Proof.
-  induction o as [|x [|y rest] IH]; intros H; [congruence|simpl; eauto|].
-  destruct IH as (r & E); [discriminate|]. simpl in *. rewrite E. eauto.
+  induction o as [|x o IH]; intros H; [congruence|].
+  destruct o as [|y rest]; [simpl; eauto|].
+  rewrite right_linear_eq. destruct IH as (r & E); [discriminate|]. rewrite E. eauto.
 Qed.
+
+Lemma left_linear_rev_eq x y rest : left_linear_rev (x :: y :: rest) =
+  match left_linear_rev (y :: rest) with Some l => Some (VNode l (VLeaf x)) | None => None end.
+Proof. reflexivity. Qed.
 
 Lemma left_linear_flatten o t : left_linear o = Some t -> flatten t = o.
 Proof.
   unfold left_linear. rewrite <- (rev_involutive o) at 2. generalize (rev o). clear o.
-  intros ro. revert t. induction ro as [|x [|y rest] IH]; intros t H; simpl in H; try discriminate.
+  intros ro. revert t. induction ro as [|x ro IH]; intros t H; [discriminate|].
+  destruct ro as [|y rest].
   - inversion H; reflexivity.
-  - destruct (left_linear_rev (y :: rest)) as [l|] eqn:E; [|discriminate].
+  - rewrite left_linear_rev_eq in H. destruct (left_linear_rev (y :: rest)) as [l|] eqn:E; [|discriminate].
     inversion H; subst. simpl flatten. rewrite (IH l eq_refl). reflexivity.
 Qed.
 
@@ -454,13 +465,21 @@ Proof.
     inversion H; subst. simpl. rewrite (IH _ _ El), (IH _ _ Er). apply firstn_skipn.
 Qed.
 
+Lemma rand_split_eq choose f x y z rest : rand_split choose (S f) (x :: y :: z :: rest) =
+  let o := x :: y :: z :: rest in
+  let s := 1 + Nat.min (choose o) (length o - 2) in
+  match rand_split choose f (firstn s o), rand_split choose f (skipn s o) with
+  | Some l, Some r => Some (VNode l r) | _, _ => None end.
+Proof. reflexivity. Qed.
+
 Lemma rand_split_flatten choose fuel : forall o t, rand_split choose fuel o = Some t -> flatten t = o.
 Proof.
-  induction fuel as [|f IH]; intros o t H; simpl in H; [discriminate|].
+  induction fuel as [|f IH]; intros o t H; [discriminate|].
   destruct o as [|x [|y [|z rest]]]; try discriminate.
   - inversion H; reflexivity.
   - inversion H; reflexivity.
-  - match type of H with context [rand_split choose f (firstn ?s ?o)] => set (s := s) in *; set (oo := o) in * end.
+  - rewrite rand_split_eq in H. cbv zeta in H.
+    set (oo := x :: y :: z :: rest) in *. set (s := 1 + Nat.min (choose oo) (length oo - 2)) in *.
     destruct (rand_split choose f (firstn s oo)) as [l|] eqn:El; [|discriminate].
     destruct (rand_split choose f (skipn s oo)) as [r|] eqn:Er; [|discriminate].
     inversion H; subst t. simpl. rewrite (IH _ _ El), (IH _ _ Er). apply firstn_skipn.
